@@ -244,6 +244,53 @@ theorem neighbors3_complete (w h d i j : Nat) (hw : 0 < w) (hh : 0 < h)
 theorem dist3_comm (a b : Nat × Nat × Nat) : dist3 a b = dist3 b a := by
   unfold dist3; omega
 
+/-! ## no cell is yielded twice -/
+
+theorem indexOf2_eq_iff (w x y x' y' : Nat) (hx : x < w) (hx' : x' < w) :
+    indexOf2 w (x, y) = indexOf2 w (x', y') ↔ (x = x' ∧ y = y') := by
+  constructor
+  · intro h
+    have h1 := (position_index2 w (y + 1) x y hx (by omega)).1
+    have h2 := (position_index2 w (y' + 1) x' y' hx' (by omega)).1
+    rw [h, h2] at h1
+    simpa [eq_comm] using h1
+  · rintro ⟨rfl, rfl⟩; rfl
+
+theorem neighbors2_nodup (w h i : Nat) (hw : 0 < w) (hi : i < w * h) :
+    (neighbors2 w h i).Nodup := by
+  obtain ⟨-, hx, hy⟩ := index_position2 w h i hw hi
+  unfold neighbors2
+  generalize positionOf2 w i = q at hx hy ⊢
+  obtain ⟨x, y⟩ := q
+  simp only at hx hy ⊢
+  cases hA : newCoord x w false <;> cases hB : newCoord x w true <;>
+    cases hC : newCoord y h false <;> cases hD : newCoord y h true <;>
+    (try simp only [newCoord_minus, newCoord_plus] at hA hB hC hD) <;>
+    simp (disch := omega) [indexOf2_eq_iff, List.filterMap_cons, List.filterMap_nil] <;> omega
+
+theorem indexOf3_eq_iff (w h x y z x' y' z' : Nat) (hx : x < w) (hx' : x' < w) (hy : y < h) (hy' : y' < h) :
+    indexOf3 w h (x, y, z) = indexOf3 w h (x', y', z') ↔ (x = x' ∧ y = y' ∧ z = z') := by
+  constructor
+  · intro e
+    have h1 := (position_index3 w h (z + 1) x y z hx hy (by omega)).1
+    have h2 := (position_index3 w h (z' + 1) x' y' z' hx' hy' (by omega)).1
+    rw [e, h2] at h1
+    simpa [eq_comm] using h1
+  · rintro ⟨rfl, rfl, rfl⟩; rfl
+
+theorem neighbors3_nodup (w h d i : Nat) (hw : 0 < w) (hh : 0 < h) (hi : i < w * h * d) :
+    (neighbors3 w h d i).Nodup := by
+  obtain ⟨-, hx, hy, hz⟩ := index_position3 w h d i hw hh hi
+  unfold neighbors3
+  generalize positionOf3 w h i = q at hx hy hz ⊢
+  obtain ⟨x, y, z⟩ := q
+  simp only at hx hy hz ⊢
+  cases hA : newCoord x w false <;> cases hB : newCoord x w true <;>
+    cases hC : newCoord y h false <;> cases hD : newCoord y h true <;>
+    cases hE : newCoord z d false <;> cases hF : newCoord z d true <;>
+    (try simp only [newCoord_minus, newCoord_plus] at hA hB hC hD hE hF) <;>
+    simp (disch := omega) [indexOf3_eq_iff, List.filterMap_cons, List.filterMap_nil] <;> omega
+
 /-! ## the CSR lattice with the same neighbours -/
 
 theorem latticeRows_perm (t : Topo) (v : Nat) : (latticeRows t v).Perm (t.nbrs v) :=
